@@ -203,7 +203,7 @@ theorem ok_dfl (n : String) (s : Schema) (d : JVal → Bool) : (dfl n s d).Ok :=
   ⟨fun h => by simp [dfl, Field.req, Field.dflt] at h, fun d h => by simp [dfl, Field.dflt] at h⟩
 
 theorem wf_text : WF text := by
-  refine .obj ?_ ?_ (by decide)
+  refine .obj ?_ ?_ (by decide) (by intro h; cases h)
   · intro f hf
     simp only [List.mem_cons, List.mem_nil_iff, or_false] at hf
     rcases hf with rfl | rfl | rfl | rfl
@@ -219,14 +219,14 @@ theorem wf_text : WF text := by
 
 theorem wf_powerLevels : WF powerLevels := by
   have hn : WF (.obj [dfl "room" pl is50] false) := by
-    refine .obj ?_ ?_ (by decide)
+    refine .obj ?_ ?_ (by decide) (by intro h; cases h)
     · intro f hf
       simp only [List.mem_cons, List.mem_nil_iff, or_false] at hf
       subst hf; exact wf_pl
     · intro f hf
       simp only [List.mem_cons, List.mem_nil_iff, or_false] at hf
       subst hf; exact ok_dfl _ _ _
-  refine .obj ?_ ?_ (by decide)
+  refine .obj ?_ ?_ (by decide) (by intro h; cases h)
   · intro f hf
     simp only [List.mem_cons, List.mem_nil_iff, or_false] at hf
     rcases hf with rfl | rfl | rfl | rfl | rfl | rfl | rfl | rfl | rfl | rfl
@@ -247,7 +247,7 @@ theorem wf_powerLevels : WF powerLevels := by
 theorem wf_member : WF member := by
   have hsigned : WF (.obj [req "mxid" anyStr, req "signatures" (.map (fun _ => true) (.map (fun _ => true) anyStr)),
       req "token" anyStr] false) := by
-    refine .obj ?_ ?_ (by decide)
+    refine .obj ?_ ?_ (by decide) (by intro h; cases h)
     · intro f hf
       simp only [List.mem_cons, List.mem_nil_iff, or_false] at hf
       rcases hf with rfl | rfl | rfl
@@ -259,7 +259,7 @@ theorem wf_member : WF member := by
       rcases hf with rfl | rfl | rfl <;> exact ok_req _ _
   have htpi : WF (.obj [req "display_name" anyStr, req "signed" (.obj [req "mxid" anyStr,
       req "signatures" (.map (fun _ => true) (.map (fun _ => true) anyStr)), req "token" anyStr] false)] false) := by
-    refine .obj ?_ ?_ (by decide)
+    refine .obj ?_ ?_ (by decide) (by intro h; cases h)
     · intro f hf
       simp only [List.mem_cons, List.mem_nil_iff, or_false] at hf
       rcases hf with rfl | rfl
@@ -268,7 +268,7 @@ theorem wf_member : WF member := by
     · intro f hf
       simp only [List.mem_cons, List.mem_nil_iff, or_false] at hf
       rcases hf with rfl | rfl <;> exact ok_req _ _
-  refine .obj ?_ ?_ (by decide)
+  refine .obj ?_ ?_ (by decide) (by intro h; cases h)
   · intro f hf
     simp only [List.mem_cons, List.mem_nil_iff, or_false] at hf
     rcases hf with rfl | rfl | rfl | rfl | rfl | rfl | rfl
